@@ -16,7 +16,11 @@ MANIFEST = dict(
           "verdict <=> verdict computed on SI magnitudes (boundary band excused) for ALL values/scales/tolerances; models "
           "are replayed on plain unyt. Spelling twins (the same unit symbol with another scale or another dimension in a second "
           "registry, re-registered, built by hand, or re-assigned on the same object) and two-/three-call histories inside one "
-          "path check that no verdict depends on how a unit is spelled or on earlier calls. Bounded: argument kinds, tolerance "
+          "path check that no verdict depends on how a unit is spelled or on earlier calls. The electromagnetic unit family - "
+          "SI and Gaussian spellings of one quantity, commensurable although their dimension expressions differ - is walked through "
+          "every helper (both systems, SI prefixes, tolerance in either system, symbolic-scale rows of an EM dimension), and the "
+          "decorators are walked with a different declared dimension per checked position over all tuples of values that alias "
+          "each other (same Unit object, same quantity object, prefixed, other dimension, bare). Bounded: argument kinds, tolerance "
           "spellings, dimension choices, shapes <= (2,), histories of <= 3 calls."),
     design="DESIGN.md section 4 C19",
     technique="symbolic execution of the real Python code over z3 real terms; SMT (QF_NRA) obligations per path; counterexample replay")
@@ -42,7 +46,19 @@ EXPLANATION = (
     "single-call cases, which knows neither spellings nor earlier calls; for the decorators the subjects of a history agree "
     "pairwise on exactly one candidate memo key (spelling / unit without declared dimension / declared dimension without unit / "
     "decorated function object / quantity object) and differ in the expected verdict, and what comes through a passing check "
-    "must have the SI magnitude that went in (z3)."
+    "must have the SI magnitude that went in (z3). "
+    "Commensurable is not the same as 'equal dimension expression': C19/em-* take the operands (and the tolerance) from the "
+    "electromagnetic family, where the SI spelling (C, A, T, V, ohm; dimensions with current_mks) and the Gaussian spelling (statC, "
+    "statA, G, statV, statohm; fractional powers of mass and length) of one quantity convert into each other. The oracle's factors "
+    "are physics written down in the harness (1 C = c/10 statC, 1 T = 1e4 G, 1 statV = c*1e-8 V, 1 statohm = c**2*1e-9 ohm), the "
+    "values, rtol and atol are symbols, a harness row of an EM dimension with a symbolic scale serves as actual's unit; pairs of "
+    "different electromagnetic quantities must be refused, re-expressing an operand in the other system must keep the verdict, "
+    "and for the array_equal family units of the two systems are never equal units. "
+    "Several checked values in one call: C19/decorators-multi/* give every checked position (2 or 3 arguments / return values, "
+    "accepts stacked with returns in both orders) its own declared dimension out of {D0, D1, dimensionless} and walk ALL tuples of "
+    "value kinds that alias each other - two values carrying one Unit object, the very same quantity object at two positions, the "
+    "unit SI-prefixed, a unit of the other dimension, bare numbers, 'dimensionless' - through one decorated function per "
+    "declaration; the call must go through untouched iff every position holds its declared dimension (harness table of kinds)."
 )
 BOUNDS = {
     "quick": "functions {allclose_units, assert_allclose_units, numpy.allclose, numpy.isclose, numpy.array_equal, "
@@ -67,7 +83,18 @@ BOUNDS = {
              "object} (288 cases), 176 three-call histories (x,y,x / x,x,y / x,y,y) with the kind rotating; rotating over 26 dimension pairs "
              "(incl. EM counterparts, dimensionless), spellings {plain, k-prefixed, squared, product with a time row}, usages "
              "{accepts positional/keyword, returns single/tuple, _has_dimensions} same for all calls through one shared decorated "
-             "function or mixed with a fresh decoration per call",
+             "function or mixed with a fresh decoration per call; electromagnetic family (C19/em-*): the 5 SI/Gaussian table pairs "
+             "{C~statC, T~G, A~statA, V~statV, ohm~statohm} in both orders for all four closeness functions with the finding-free atol, "
+             "forms q (and (2,) for the first pairs of allclose_units/np.allclose), atol written in actual's / desired's system, "
+             "SI-prefixed, in another EM quantity, in a mechanical unit (a selection per function), bare atol and numpy's bare default on "
+             "4 pairs (known-finding cells), 6 SI-prefixed cross pairs, 4 symbolic-scale rows (charge and magnetic field, both systems) as "
+             "actual's unit, same-system operands with the tolerance in the other system, 7 pairs of different EM quantities, "
+             "re-expression of actual/desired in the other system (5 quantities), 12 pairs for the array_equal family; several checked "
+             "values in one call (C19/decorators-multi): 13 dimensions x 4 of the 10 usages {returns 2/3 values, accepts 2 positional / 2 "
+             "keyword (reversed order) / positional+keyword / with an unchecked argument between / 3 positional, returns over accepts, "
+             "accepts over returns positional / keyword}, other dimension rotating over 2-3 partners (incl. the EM counterpart), "
+             "declarations {(D0,D1),(D1,D0),(D0,D0),(D0,N),(N,D0)} x ALL 64 pairs of the 8 value kinds, {(D0,D0,D1),(D0,D1,D0),(D1,D0,D0),"
+             "(D0,D1,N)} x ALL 64 triples of 4 kinds",
     "thorough": "same axes; all 10 same-dimension operand pairs x all atol spellings for both *_units helpers, bare atol on every "
                 "pair, numpy handlers on all pairs, unit-carrying atol also with (2,) operands, re-expression with (2,) operands "
                 "and via a third spelling; decorators: all 9 usages over all 53 dimensions of unyt.dimensions and the default unit "
@@ -75,9 +102,20 @@ BOUNDS = {
                 "(three-call histories scalar only; the numpy handlers with a unit-carrying atol in two-call histories scalar only "
                 "and without the prefixed twin) for all four closeness functions and the array_equal family; decorator "
                 "histories: all 64 two-call histories x 4 kinds x 4 spellings x {same usage through one shared decorated function, "
-                "mixed usages decorated afresh}, ALL 512 three-call histories x 4 kinds",
+                "mixed usages decorated afresh}, ALL 512 three-call histories x 4 kinds; electromagnetic family: every table pair in "
+                "both orders x forms {q~q, a~a, a~q} x all unit-carrying tolerance spellings (own system, other system, prefixed, other EM "
+                "quantity, mechanical unit) for all four functions, bare atol / numpy's bare default on all 10 ordered pairs for "
+                "allclose_units and np.allclose and on 4 for the other two (known-finding cells), all prefixed pairs, rows, re-expressions (also with a "
+                "unit-carrying atol and (2,) operands) and array_equal pairs; decorators-multi: all 10 usages for each of the 53 "
+                "dimensions, returns-2/accepts-positional-2 against every partner dimension",
 }
-OUTSIDE = ("histories longer than three calls, state carried between processes or through pickling (C11), spelling twins inside "
+OUTSIDE = ("electromagnetic family: the SI/Gaussian factors are constants of unyt's table, so the unit scales of C19/em-* are "
+           "concrete except for the harness rows, which unyt reaches only as the conversion TARGET (actual's unit): a user-defined "
+           "unit of an EM dimension as the SOURCE of a cross-system conversion is refused by unyt's conversion layer (only the ten table "
+           "names, SI-prefixed, are converted - stated limit of _check_em_conversion, C03's subject) and is not walked; compound units "
+           "containing EM units; Mx/Wb and other EM-dimensioned table units without a counterpart row; decorators-multi: more than "
+           "three checked positions, keyword-only parameters, *args/**kwargs of the wrapped function; "
+           "histories longer than three calls, state carried between processes or through pickling (C11), spelling twins inside "
            "compound units other than square/product, twins of the tolerance's unit in histories (single calls only), memos "
            "keyed by object identity are only met through the re-assigned-units subject (identity reuse after garbage "
            "collection is not provoked); IEEE rounding/overflow/nan/inf and equal_nan (A1); units with an offset (degC, degF: a relative tolerance on an "
@@ -96,7 +134,8 @@ ASSUMPTIONS = [
     "ufuncs, so that unyt's __array_ufunc__ meets the tolerance exactly as in production (symx/kernels.py _isclose_body)",
 ]
 
-NAMES = ["xa", "xd", "xc", "xe", "xn", "xt", "xs", "xq", "xr", "xw", "xbm", "xbl", "xbt", "xbk", "xbg", "xbi", "xbj", "xbo"]
+NAMES = ["xa", "xd", "xc", "xe", "xn", "xt", "xs", "xq", "xr", "xw", "xbm", "xbl", "xbt", "xbk", "xbg", "xbi", "xbj", "xbo", "xgq", "xhq",
+         "xgb", "xhb"]
 TOL = 1e-6
 SEP = 1e-8
 
@@ -112,7 +151,67 @@ class Side:
 
 def _dims(ctx, tag):
     D = ctx.mods["unyt"].dimensions
+    if tag in EM_DIMS:
+        return getattr(D, EM_DIMS[tag])
     return {"L": D.length, "T": D.time, "N": D.dimensionless, "C": D.length**2 / D.time}[tag]
+
+
+# ---- the electromagnetic unit family: the SI and the Gaussian spelling of one physical quantity have DIFFERENT dimension
+# expressions (charge_mks = current_mks*time, charge_cgs = length**1.5*mass**0.5/time) and are nevertheless commensurable:
+# in_units()/to() converts between them. Dimension tags: <quantity letter><system>, e.g. "Qm" (coulomb side), "Qc" (statC side).
+# The factors are physics, written down here independently of unyt's em_conversions table:
+#   1 C = c/10 statC, 1 A = c/10 statA, 1 T = 1e4 G, 1 statV = c*1e-8 V (299.79 V), 1 statohm = c**2*1e-9 ohm   (c in cm/s)
+C_CM = 29979245800.0
+EM_DIMS = {"Qm": "charge_mks", "Qc": "charge_cgs", "Im": "current_mks", "Ic": "current_cgs", "Bm": "magnetic_field_mks",
+           "Bc": "magnetic_field_cgs", "Pm": "electric_potential_mks", "Pc": "electric_potential_cgs", "Rm": "resistance_mks",
+           "Rc": "resistance_cgs"}
+# table name -> (dimension tag, reading of one unit in the SI partner unit, size of one unit in kg-m-s terms: 1 statC =
+# 1 g**0.5 cm**1.5 / s = 10**-4.5 kg**0.5 m**1.5 / s ...)
+EM_UNITS = {"C": ("Qm", 1.0, 1.0), "statC": ("Qc", 10.0 / C_CM, 10.0**-4.5),
+            "A": ("Im", 1.0, 1.0), "statA": ("Ic", 10.0 / C_CM, 10.0**-4.5),
+            "T": ("Bm", 1.0, 1.0), "G": ("Bc", 1.0e-4, 10.0**-0.5),
+            "V": ("Pm", 1.0, 1.0), "statV": ("Pc", C_CM * 1.0e-8, 10.0**-2.5),
+            "ohm": ("Rm", 1.0, 1.0), "statohm": ("Rc", C_CM**2 * 1.0e-9, 100.0)}
+# harness rows of an EM dimension with a SYMBOLIC scale (kg-m-s size s): as the conversion TARGET unyt reaches them from the
+# table unit of the other system
+EM_ROWS = {"xgq": "Qc", "xhq": "Qm", "xgb": "Bc", "xhb": "Bm"}
+EM_PREFIXES = ("k", "m", "u", "M")
+
+
+def em_split(spec):
+    """'mstatC' -> ('m', 'statC') | None ('G', 'T', 'M...' read as table names first, as unyt does)"""
+    if spec in EM_UNITS:
+        return "", spec
+    if spec[:1] in EM_PREFIXES and spec[1:] in EM_UNITS:
+        return spec[0], spec[1:]
+    return None
+
+
+def em_quantity(tag):
+    return tag[0] if tag in EM_DIMS else None
+
+
+def commensurable(d1, d2):
+    """same dimension tag, or the SI and the Gaussian side of one electromagnetic quantity"""
+    return d1 == d2 or (em_quantity(d1) is not None and em_quantity(d1) == em_quantity(d2))
+
+
+def kms_size(ctx, reg, spec):
+    """size of one unit in kg-m-s terms (what unyt calls base_value) - only used to STATE the reading the code implements where
+    a known finding makes the documented oracle fail"""
+    sp = em_split(spec)
+    if sp is not None:
+        return EM_UNITS[sp[1]][2] * (PREFIX[sp[0]] if sp[0] else 1.0)
+    return _row(ctx, reg, spec, EM_ROWS[spec])
+
+
+# unyt's table (pinned by its test_electromagnetic: "1 statV = 1e8/c V") has the volt/statvolt factor upside down; the reading
+# the code implements is kept beside the physical one so that the cells of that known finding still alarm on anything else
+def pinned_scale(spec, scale):
+    sp = em_split(spec) if spec else None
+    if sp is not None and sp[1] == "statV":
+        return scale * ((1.0e8 / C_CM) / (C_CM * 1.0e-8))
+    return scale
 
 
 def twin_registry(ctx, tag, dims=None):
@@ -162,6 +261,16 @@ def unit_of(ctx, reg, spec):
     if spec.startswith("1000*"):
         u, s, d = unit_of(ctx, reg, spec[5:])
         return spec, s * 1000.0, d
+    sp = em_split(spec)
+    if sp is not None:
+        tag, si_reading, _ = EM_UNITS[sp[1]]
+        return spec, si_reading * (PREFIX[sp[0]] if sp[0] else 1.0), tag
+    if spec in EM_ROWS:
+        # symbolic kg-m-s size s: one unit is s/size(table unit of its system) table units
+        tag = EM_ROWS[spec]
+        s = _row(ctx, reg, spec, tag)
+        tab = next(v for v in EM_UNITS.values() if v[0] == tag)
+        return spec, s * (tab[1] / tab[2]), tag
     raise KeyError(spec)
 
 
@@ -289,14 +398,19 @@ def refused(ctx, fn_name, out):
     return out[0] == "verdict" and len(out[1]) == 1 and out[1][0] is False
 
 
-def check_verdicts(ctx, label, fn_name, vs, mb):
+def check_verdicts(ctx, label, fn_name, vs, mb, also_near=None):
+    """also_near: margins of a second reading whose exact boundary is excused as well (the threshold the code really computes
+    in a known-finding cell: a model sitting on it would not survive IEEE rounding in the replay)"""
     if fn_name == "np.isclose":
         if len(vs) != len(mb):
             ctx.require(label + " [shape]", False, got=len(vs), want=len(mb))
             return
-        ctx.require(label, And(*[agrees(v, [x]) for v, x in zip(vs, mb)]))
+        if also_near is None:
+            ctx.require(label, And(*[agrees(v, [x]) for v, x in zip(vs, mb)]))
+        else:
+            ctx.require(label, And(*[Or(agrees(v, [x]), near([y])) for v, x, y in zip(vs, mb, also_near)]))
     else:
-        ctx.require(label, agrees(vs[0], mb))
+        ctx.require(label, agrees(vs[0], mb) if also_near is None else Or(agrees(vs[0], mb), near(also_near)))
 
 
 def is_null(S):
@@ -335,13 +449,13 @@ def close_step(ctx, fn_name, rega, fa, ua, regd, fd, ud, atol_how, rtol_how, tag
         separate(ctx, atol_scale, sa)
     out = run_close(ctx, fn_name, A.obj, Dd.obj, kw)
     ctx.observe("outcome" + tag, out[0] if out[0] == "verdict" else type(out[1]).__name__)
-    if da != dd:
+    if not commensurable(da, dd):
         ctx.require(lp + "incommensurable operands are refused", refused(ctx, fn_name, out), got=str(out)[:200])
         return
     if rtol_dim != "N":
         ctx.require(lp + "dimensional rtol raises RuntimeError", out[0] == "raise" and type(out[1]) is RuntimeError, got=str(out)[:200])
         return
-    if atol_dim != "bare" and atol_dim != da:
+    if atol_dim != "bare" and not commensurable(atol_dim, da):
         ctx.require(lp + "atol of another dimension is refused", refused(ctx, fn_name, out), got=str(out)[:200])
         return
     if out[0] != "verdict":
@@ -349,6 +463,11 @@ def close_step(ctx, fn_name, rega, fa, ua, regd, fd, ud, atol_how, rtol_how, tag
         return
     vs = out[1]
     rel_d = ratio(sd, sa)
+    # electromagnetic operands: the reading the code implements where a known finding makes the documented oracle fail
+    # (volt/statvolt factor of unyt's table; a bare atol across the two systems is rescaled by the kg-m-s sizes of the units)
+    sa_i, sd_i = pinned_scale(A.ustr, sa), pinned_scale(Dd.ustr, sd)
+    at_i = None if atol_scale is None else pinned_scale(atol_how, atol_scale)
+    mixed = da != dd or (atol_dim != "bare" and atol_dim != da)
     if npf and da == "N" and is_null(A) != is_null(Dd) and atol_how == "zero":
         # a unitless operand against a dimensionless unit of another scale (percent, ppm ...)
         check_verdicts(ctx, lp + "verdict == SI oracle, unitless operand against a dimensionless unit of other scale", fn_name, vs,
@@ -357,13 +476,23 @@ def close_step(ctx, fn_name, rega, fa, ua, regd, fd, ud, atol_how, rtol_how, tag
         # a bare atol is in the unit of `desired` (the as-implemented twin "read in actual's unit" was dropped when
         # 14b8216 / a284d7d repaired the defect)
         doc = margins(A, Dd, rel_d, atol * rel_d, rtol)
-        check_verdicts(ctx, lp + "verdict == SI oracle, bare atol read in desired's unit", fn_name, vs, doc)
+        impl = None
+        if da != dd:
+            impl = margins(A, Dd, ratio(sd_i, sa_i), atol * ratio(kms_size(ctx, regd, ud), kms_size(ctx, rega, ua)), rtol)
+        check_verdicts(ctx, lp + "verdict == SI oracle, bare atol read in desired's unit", fn_name, vs, doc, also_near=impl)
+        if da != dd:
+            check_verdicts(ctx, lp + "as implemented: bare atol across the SI/Gaussian systems rescaled by the units' kg-m-s sizes", fn_name, vs, impl)
     else:
         mb = margins(A, Dd, rel_d, atol * ratio(atol_scale, sa), rtol)
         lab = "verdict == SI oracle, atol in its own unit"
         if rtol_how not in ("default", "bare"):
             lab += ", rtol a dimensionless quantity"
-        check_verdicts(ctx, lp + lab, fn_name, vs, mb)
+        impl = None
+        if mixed and (sa_i is not sa or sd_i is not sd or at_i is not atol_scale):
+            impl = margins(A, Dd, ratio(sd_i, sa_i), atol * ratio(at_i, sa_i), rtol)
+        check_verdicts(ctx, lp + lab, fn_name, vs, mb, also_near=impl)
+        if impl is not None:
+            check_verdicts(ctx, lp + "as implemented: volt/statvolt factor as unyt's table has it", fn_name, vs, impl)
 
 
 def make_close_case(fn_name, fa, ua, fd, ud, atol_how, rtol_how):
@@ -468,6 +597,166 @@ def make_equal_case(fn_name, fa, ua, fb, ub):
         reg = ctx.registry([])
         equal_step(ctx, fn_name, reg, fa, ua, reg, fb, ub)
     return Case(f"C19/{fn_name}/{fa}:{ua}~{fb}:{ub}", h, oblig_timeout_ms=60000, weight=2)
+
+
+# ----------------------------------------------------------------------------------------------- electromagnetic unit family
+#
+# Everywhere above "commensurable" coincides with "equal dimension expression". For the electromagnetic quantities it does
+# not: the SI spelling (C, A, T, V, ohm) and the Gaussian spelling (statC, statA, G, statV, statohm) of one quantity have
+# different dimension expressions and unyt converts between them. The cases below walk that family through every helper:
+# table units of both systems with SI prefixes (concrete physical factors, see EM_UNITS), harness rows of an EM dimension with
+# a symbolic scale as the unit of `actual` (the conversion target), the tolerance written in either system, pairs of
+# DIFFERENT electromagnetic quantities (refused), re-expression of an operand in the other system, and the array_equal
+# family (units of the two systems are never equal units). Values, rtol, atol stay symbols.
+
+def em_system(spec):
+    if spec is None or spec in ("default", "zero", "bare"):
+        return None
+    sp = em_split(spec)
+    tag = EM_UNITS[sp[1]][0] if sp is not None else EM_ROWS.get(spec)
+    return tag[1] if tag else None
+
+
+def make_em_close_case(fn_name, fa, ua, fd, ud, atol_how, rtol_how="bare"):
+    systems = {em_system(x) for x in (ua, ud, atol_how)} - {None}
+    kind = "em-cross" if len(systems) > 1 else "em-same"
+    npf = fn_name in NP_FAMILY
+
+    def h(ctx):
+        reg = ctx.registry([])
+        close_step(ctx, fn_name, reg, fa, ua, reg, fd, ud, atol_how, rtol_how)
+    return Case(f"C19/{kind}/{fn_name}/{fa}:{ua}~{fd}:{ud}/atol={atol_how}/rtol={rtol_how}", h,
+                bounds="symbolic: values, rtol, atol, scales of harness rows; enumerated: electromagnetic quantity, system and SI prefix of "
+                       "each unit (table factors are constants)", oblig_timeout_ms=60000, budget_s=600,
+                weight=(3 if "a" in (fa, fd) else 1) * (10 if npf and atol_how not in ("zero", "default", "bare") else 1))
+
+
+def make_em_reexpr_case(fn_name, which, fa, ua, fd, ud, atol_how, via):
+    """verdict(actual, desired) == verdict with one operand re-expressed in the unit `via` (of the other system)"""
+    npf = fn_name in NP_FAMILY
+
+    def h(ctx):
+        reg = ctx.registry([])
+        A = operand(ctx, reg, "a", fa, ua)
+        Dd = operand(ctx, reg, "d", fd, ud)
+        kwa, atol, atol_scale, atol_dim = make_atol(ctx, reg, atol_how)
+        if atol is None:
+            atol = 1e-8 if npf else 0.0
+        kwr, rtol, _, _ = make_rtol(ctx, reg, "bare", None)
+        kw = dict(kwa, **kwr)
+        ustr, s2, d2 = unit_of(ctx, reg, via)
+        out1 = run_close(ctx, fn_name, A.obj, Dd.obj, kw)
+        conv = call((A if which == "actual" else Dd).obj.to, ustr)
+        if conv[0] != "ok":
+            ctx.require(f"{which} can be re-expressed in {via}", False, got=repr(conv[1])[:200])
+            return
+        if which == "actual":
+            out2 = run_close(ctx, fn_name, conv[1], Dd.obj, kw)
+        else:
+            out2 = run_close(ctx, fn_name, A.obj, conv[1], kw)
+        if out1[0] != "verdict" or out2[0] != "verdict":
+            ctx.require("commensurable operands and tolerances give a verdict", False, got=str((out1, out2))[:200])
+            return
+        # the excuse band around the exact boundary, in the code's own reading of the volt/statvolt factor (known finding) so
+        # that it sits where the two computed verdicts can legitimately part
+        sa, sd = pinned_scale(A.ustr, A.scale), pinned_scale(Dd.ustr, Dd.scale)
+        rel_d = ratio(sd, sa)
+        if atol_dim == "bare":
+            mb = margins(A, Dd, rel_d, atol * rel_d, rtol)
+        else:
+            mb = margins(A, Dd, rel_d, atol * ratio(pinned_scale(atol_how, atol_scale), sa), rtol)
+        lab = f"re-expressing {which} in the other system keeps the verdict"
+        if fn_name == "np.isclose":
+            ctx.require(lab, And(*[Or(Iff(v1, v2), near([x])) for v1, v2, x in zip(out1[1], out2[1], mb)]))
+        else:
+            ctx.require(lab, Or(Iff(out1[1][0], out2[1][0]), near(mb)))
+    return Case(f"C19/em-reexpress/{fn_name}/{which}/{fa}:{ua}~{fd}:{ud}/atol={atol_how}/via={via}", h, oblig_timeout_ms=60000,
+                budget_s=600, weight=(4 if "a" in (fa, fd) else 2))
+
+
+def make_em_equal_case(fn_name, fa, ua, fb, ub):
+    def h(ctx):
+        reg = ctx.registry([])
+        equal_step(ctx, fn_name, reg, fa, ua, reg, fb, ub)
+    return Case(f"C19/em-equal/{fn_name}/{fa}:{ua}~{fb}:{ub}", h, oblig_timeout_ms=60000, weight=2)
+
+
+EM_TABLE_PAIRS = [("C", "statC"), ("T", "G"), ("A", "statA"), ("V", "statV"), ("ohm", "statohm")]
+
+
+def em_cases(tier):
+    thorough = tier == "thorough"
+    out = []
+    UNITS_FNS = ("allclose_units", "assert_allclose_units")
+    both = []
+    for si, cg in EM_TABLE_PAIRS:
+        both += [(si, cg), (cg, si)]
+    prefixed = [("mC", "statC"), ("kG", "T"), ("uT", "mG"), ("statA", "kA"), ("mV", "kstatV"), ("Mstatohm", "ohm")]
+    rows = [("xgq", "C"), ("xhq", "statC"), ("xgb", "mT"), ("xhb", "kG")]          # symbolic-scale unit of `actual`, table unit of the other system
+    other_quantity = [("C", "A"), ("statC", "G"), ("C", "G"), ("T", "statC"), ("V", "statohm"), ("statA", "statC"), ("xgq", "T")]
+    for fn in UNITS_FNS + NP_FAMILY:
+        npf = fn in NP_FAMILY
+        first = fn in ("allclose_units", "np.allclose")
+        free = "zero" if npf else "default"
+        # --- the table pairs in both orders
+        for k, (ua, ud) in enumerate(both):
+            for fa, fd in ([("q", "q"), ("a", "a"), ("a", "q")] if thorough else ([("q", "q"), ("a", "a")] if first and k < 4 else [("q", "q")])):
+                out.append(make_em_close_case(fn, fa, ua, fd, ud, free))
+            if thorough or first or k % 4 == 0:
+                # the tolerance written in actual's, in desired's spelling; a unit of another EM quantity; a mechanical unit
+                for atol in ((ua, ud) + ((("m" + ud), "T" if ua not in ("T", "G") else "C", "xt") if thorough or k < 2 else ())):
+                    if npf and not (thorough or k < 2):
+                        continue
+                    out.append(make_em_close_case(fn, "q", ua, "q", ud, atol))
+            # bare atol (and numpy's bare default): the known-finding cells, a few each
+            if (first and (thorough or k < 4)) or (thorough and k < 4):
+                out.append(make_em_close_case(fn, "q", ua, "q", ud, "bare"))
+                if npf:
+                    out.append(make_em_close_case(fn, "q", ua, "q", ud, "default", "default"))
+        out.append(make_em_close_case(fn, "q", "C", "q", "statC", free, "default"))
+        for k, (ua, ud) in enumerate(prefixed):
+            if not (thorough or first or k < 2):
+                continue
+            out.append(make_em_close_case(fn, "q", ua, "q", ud, free))
+            out.append(make_em_close_case(fn, "a" if k % 2 else "q", ud, "q", ua, free))
+            if thorough or (first and k < 3):
+                out.append(make_em_close_case(fn, "q", ua, "q", ud, ud))
+        for k, (ua, ud) in enumerate(rows):
+            if not (thorough or first or k < 2):
+                continue
+            out.append(make_em_close_case(fn, "q", ua, "q", ud, free))
+            if thorough or (first and k < 2):
+                out.append(make_em_close_case(fn, "a", ua, "a", ud, free))
+                out.append(make_em_close_case(fn, "q", ua, "q", ud, ud))
+        # --- one system on both sides, the tolerance in the other one; same system throughout (fractional-power dimensions)
+        for k, (ua, ud, atol) in enumerate([("C", "mC", "statC"), ("G", "kG", "T"), ("statV", "statV", "mV"), ("G", "mG", free),
+                                            ("statC", "kstatC", "statC"), ("xgq", "statC", "C")]):
+            if thorough or first or k < 2:
+                out.append(make_em_close_case(fn, "q", ua, "q", ud, atol))
+        # --- different electromagnetic quantities, in one system and across the systems
+        for k, (ua, ud) in enumerate(other_quantity):
+            if thorough or first or k < 3:
+                out.append(make_em_close_case(fn, "q" if k % 2 == 0 else "a", ua, "q" if k % 2 == 0 else "a", ud, free))
+        # --- re-expression in the other system
+        for k, (ua, ud, via) in enumerate([("C", "mC", "statC"), ("G", "kG", "T"), ("statA", "statA", "kA"), ("V", "mV", "statV"),
+                                           ("ohm", "ohm", "statohm")]):
+            if not (thorough or first or k < 2):
+                continue
+            for which in ("actual", "desired"):
+                for atol in ([free, ua] if thorough or (first and k < 2) else [free]):
+                    if npf and atol != free and not thorough:
+                        continue
+                    out.append(make_em_reexpr_case(fn, which, "q", ua, "q", ud, atol, via))
+            if thorough and first:
+                out.append(make_em_reexpr_case(fn, "actual", "a", ua, "a", ud, free, via))
+    eq_pairs = [("a", "C", "a", "statC"), ("q", "G", "q", "T"), ("a", "mT", "a", "kG"), ("q", "statA", "q", "A"), ("a", "V", "a", "statV"),
+                ("q", "ohm", "q", "statohm"), ("a", "statC", "a", "statC"), ("a", "G", "a", "mG"), ("q", "kG", "q", "1000*G"),
+                ("a", "xgq", "a", "C"), ("q", "xgq", "q", "statC"), ("a", "C", "a", "A")]
+    for fn in ("np.array_equal", "np.array_equiv", "assert_array_equal_units"):
+        for k, (fa, ua, fb, ub) in enumerate(eq_pairs):
+            if thorough or fn == "np.array_equal" or k % 2 == 0:
+                out.append(make_em_equal_case(fn, fa, ua, fb, ub))
+    return out
 
 
 # ----------------------------------------------------------------------------------------------- spelling twins and call histories
@@ -770,6 +1059,172 @@ def decorator_cases(tier, mods):
         usages = USAGES if tier == "thorough" else [USAGES[i % 3], USAGES[3 + i % 2], USAGES[5 + i % 3], "has-dimensions"]
         for u in usages:
             out.append(make_decorator_case(n, d, others, u, tier))
+    return out
+
+
+# ----------------------------------------------------------------------------------------------- several checked values in ONE call
+#
+# The decorator cases above declare the SAME dimension for every checked position of a call and vary one value at a time, so
+# a check that is answered for one position and reused for another (keyed by the value's unit, by the value object, by the
+# declared dimension, by "all values share a unit" ...) is never contradicted. Here every checked position has its OWN
+# declared dimension - all assignments of {D0, D1, dimensionless} the list MV_DECLARED gives - and the values of a call are
+# drawn from kinds that alias each other in every way two values can: the same Unit object on two values, the very same
+# quantity object at two positions, the same unit SI-prefixed, a unit of the other dimension, bare numbers, 'dimensionless'.
+# ALL tuples of kinds are walked for every declaration (one decorated function per declaration, so the calls of a case are a
+# history as well). Expected: the call goes through, result and arguments untouched, iff EVERY position holds a value of its
+# declared dimension - read off the harness' own table of kinds, never from unyt.
+
+MV_KINDS = ("A", "A2", "Aobj", "kA", "E", "E2", "bare", "dl")
+MV_KIND_TEXT = {"A": "a value in unit u0 (dimension D0)", "A2": "another value carrying the same Unit object u0",
+                "Aobj": "the very same quantity object as A", "kA": "a value in k-prefixed u0", "E": "a value in unit u1 (dimension D1)",
+                "E2": "another value carrying the same Unit object u1", "bare": "a bare number", "dl": "a value in 'dimensionless'"}
+MV_KIND_DIM = {"A": "0", "A2": "0", "Aobj": "0", "kA": "0", "E": "1", "E2": "1", "bare": "N", "dl": "N"}
+MV_KINDS3 = ("A", "A2", "E", "bare")
+MV_DECLARED = {2: [("0", "1"), ("1", "0"), ("0", "0"), ("0", "N"), ("N", "0")],
+               3: [("0", "0", "1"), ("0", "1", "0"), ("1", "0", "0"), ("0", "1", "N")]}
+MV_USAGES = ("returns-2", "accepts-positional-2", "accepts-keyword-2", "stacked-returns-over-accepts", "accepts-mixed-2", "accepts-gap-2",
+             "returns-3", "accepts-3", "stacked-accepts-over-returns", "stacked-accepts-over-returns-keyword")
+MV_STACKED = ("stacked-returns-over-accepts", "stacked-accepts-over-returns", "stacked-accepts-over-returns-keyword")
+
+
+def make_multi_value_case(dname, D0, oname, D1, usage):
+    n = 3 if usage.endswith("-3") else 2
+
+    def h(ctx):
+        import itertools
+        unyt = ctx.mods["unyt"]
+        Dm = unyt.dimensions
+        reg = ctx.registry([])
+        ctx.add_row(reg, "xq", D0, ctx.real("xq_s", pos=True), 0.0, prefixable=True)
+        ctx.add_row(reg, "xw", D1, ctx.real("xw_s", pos=True), 0.0)
+        u0 = unyt.Unit("xq", registry=reg)
+        u1 = unyt.Unit("xw", registry=reg)
+        dims = {"0": D0, "1": D1, "N": Dm.dimensionless}
+        val = {"A": ctx.quantity(ctx.real("vA"), u0), "A2": ctx.quantity(ctx.real("vA2"), u0), "kA": ctx.quantity(ctx.real("vkA"), "kxq", reg),
+               "E": ctx.quantity(ctx.real("vE"), u1), "E2": ctx.quantity(ctx.real("vE2"), u1), "bare": ctx.real("vb"),
+               "dl": ctx.quantity(ctx.real("vdl"), "dimensionless", reg)}
+        val["Aobj"] = val["A"]
+        # the harness' premise, read off the objects: the aliasing relations are really there
+        if not (val["A"].units is val["A2"].units and val["E"].units is val["E2"].units and val["A"].units is not val["kA"].units):
+            ctx.require("premise: the aliased values carry one Unit object", False)
+            return
+
+        def has(kind, tag):
+            return bool(dims[MV_KIND_DIM[kind]] == dims[tag])   # sympy equality of the harness' own dimension objects
+
+        kinds = MV_KINDS if n == 2 else MV_KINDS3
+        unchecked_positional = []
+        for decl in MV_DECLARED[n]:
+            dd = [dims[t] for t in decl]
+            calls = []
+
+            def body(x=None, y=None, z=None):
+                ret = ("result", x, y, z)
+                calls.append(ret)
+                return ret
+
+            def give(*t):
+                calls.append(t)
+                return t
+
+            def mid(x):
+                # returns the value it closes over (set per call) - for the stacked usage
+                calls.append(mid.out)
+                return mid.out
+
+            if usage in ("returns-2", "returns-3"):
+                f = Dm.returns(*dd)(give)
+            elif usage in ("accepts-positional-2", "accepts-keyword-2", "accepts-mixed-2"):
+                f = Dm.accepts(x=dd[0], y=dd[1])(body)
+            elif usage == "accepts-gap-2":
+                f = Dm.accepts(x=dd[0], z=dd[1])(body)
+            elif usage == "accepts-3":
+                f = Dm.accepts(x=dd[0], y=dd[1], z=dd[2])(body)
+            elif usage == "stacked-returns-over-accepts":
+                f = Dm.returns(dd[1])(Dm.accepts(x=dd[0])(mid))
+            elif usage in MV_STACKED:
+                f = Dm.accepts(x=dd[0])(Dm.returns(dd[1])(mid))
+            else:
+                raise KeyError(usage)
+            for ks in itertools.product(kinds, repeat=n):
+                vs = [val[k] for k in ks]
+                oks = [has(k, t) for k, t in zip(ks, decl)]
+                expected = all(oks)
+                n0 = len(calls)
+                if usage.startswith("returns"):
+                    r = call(f, *vs)
+                    ran = 1
+                    seen = calls[-1] if len(calls) > n0 else None
+                    same = r[0] == "ok" and r[1] is seen and all(p is q for p, q in zip(r[1], vs))
+                elif usage in MV_STACKED:
+                    mid.out = vs[1]
+                    r = call(f, x=vs[0]) if usage.endswith("keyword") else call(f, vs[0])
+                    ran = 1 if oks[0] else 0          # a refused argument must not reach the function
+                    same = r[0] == "ok" and r[1] is vs[1]
+                else:
+                    if usage == "accepts-keyword-2":
+                        r = call(f, y=vs[1], x=vs[0])
+                        want = (vs[0], vs[1], None)
+                    elif usage == "accepts-mixed-2":
+                        r = call(f, vs[0], y=vs[1])
+                        want = (vs[0], vs[1], None)
+                    elif usage == "accepts-gap-2":
+                        r = call(f, vs[0], val["E"], vs[1])      # the middle argument is not checked
+                        want = (vs[0], val["E"], vs[1])
+                    else:
+                        r = call(f, *vs)
+                        want = tuple(vs) + (None,) * (3 - n)
+                    ran = 1 if expected else 0
+                    same = (r[0] == "ok" and len(calls) == n0 + 1 and r[1] is calls[-1]
+                            and all(p is q for p, q in zip(calls[-1][1:], want)))
+                if expected:
+                    ok = same and len(calls) == n0 + 1
+                else:
+                    ok = r[0] == "raise" and type(r[1]) is TypeError and len(calls) == n0 + ran
+                if usage == "stacked-accepts-over-returns" and not oks[0]:
+                    # known finding: accepts reads the parameter names off the wrapper returns() made, so a POSITIONAL argument is
+                    # not checked at all. The documented expectation is stated once per declaration (below); per call the reading
+                    # the code implements - the result check alone decides - must hold, so anything else in these cells alarms
+                    unchecked_positional.append(ok)
+                    impl = (r[0] == "ok" and r[1] is vs[1]) if oks[1] else (r[0] == "raise" and type(r[1]) is TypeError)
+                    ctx.require(f"{usage} declared ({','.join('D' + t for t in decl)}) given ({', '.join(ks)}): as implemented, the result "
+                                "check alone decides", impl and len(calls) == n0 + 1, got=str(r)[:160])
+                    continue
+                ctx.require(f"{usage} declared ({','.join('D' + t for t in decl)}) given ({', '.join(ks)}): "
+                            + ("goes through untouched" if expected else "TypeError"), ok, got=str(r)[:160], calls=len(calls) - n0,
+                            values="; ".join(MV_KIND_TEXT[k] for k in ks))
+        if unchecked_positional:
+            ctx.require(f"{usage}: a positional argument of the wrong dimension is refused with TypeError before the function runs "
+                        "(every declaration, every value kind)", all(unchecked_positional), refused=sum(unchecked_positional),
+                        of=len(unchecked_positional))
+    return Case(f"C19/decorators-multi/{usage}/{dname}~{oname}", h,
+                bounds="symbolic: values and unit scales; enumerated: the dimension pair, the declared dimension of every position, the kind of "
+                       "value at every position (all tuples), the usage")
+
+
+def multi_value_cases(tier, mods):
+    Dm = mods["unyt"].dimensions
+    thorough = tier == "thorough"
+    cat = [(n, d) for n, d in dims_catalogue(mods, tier) if _decomposable(Dm, d)]
+    out = []
+    for i, (n, d) in enumerate(cat):
+        others = [cat[(i + 1) % len(cat)], cat[(i + 5) % len(cat)]]
+        em = Dm.em_dimensions.get(d)
+        if em is not None:
+            others.append(("em_counterpart", em))
+        others = [(on, od) for on, od in others if od != d]
+        if thorough:
+            todo = [(u, others[k % len(others)]) for k, u in enumerate(MV_USAGES)]
+            todo += [(u, o) for u in ("returns-2", "accepts-positional-2") for o in others[1:]]
+        else:
+            todo = [(MV_USAGES[(i + k) % 6], others[(i + k) % len(others)]) for k in (0, 3)]
+            todo.append((MV_USAGES[6 + i % 4], others[0]))
+            todo.append((MV_USAGES[i % 2], others[-1]))
+        seen = set()
+        for u, (on, od) in todo:
+            if (u, on) not in seen:
+                seen.add((u, on))
+                out.append(make_multi_value_case(n, d, on, od, u))
     return out
 
 
@@ -1130,7 +1585,9 @@ def cases(tier, mods):
     for fn in ("np.array_equal", "np.array_equiv", "assert_array_equal_units"):
         for fa, ua, fb, ub in eq_pairs:
             out.append(make_equal_case(fn, fa, ua, fb, ub))
+    out += em_cases(tier)
     out += twin_cases(tier)
     out += decorator_cases(tier, mods)
+    out += multi_value_cases(tier, mods)
     out += decorator_history_cases(tier, mods)
     return out
